@@ -208,6 +208,22 @@ Theorem C14_frame_and_date_witnesses :
 Proof. exact frame_witnesses_w. Qed.
 Print Assumptions C14_frame_and_date_witnesses.
 
+(* (8) room definitions received from a peer with one member of a sys.* row replaced: the next
+   start of the instance succeeds except in exactly one case, a user row without `enabled`
+   (class 11: accepted, stored, and load_user_from_json unwraps the rendered default) *)
+Theorem C14_room_definition_restart_outside_known : forall m v,
+  restart_succeeds m v = false <-> (m = MUserEnabled /\ v = JMissing).
+Proof. exact room_def_restart_outside_known. Qed.
+Print Assumptions C14_room_definition_restart_outside_known.
+
+Theorem C14_room_definition_witnesses :
+  run_C14 (CRoomDef MUserEnabled JMissing) = [0; 1; 0] /\ known_C14 (CRoomDef MUserEnabled JMissing) = [11] /\
+  spec_C14 (CRoomDef MUserEnabled JMissing) [0; 1; 0] = false /\
+  run_C14 (CRoomDef MUserEnabled JNull) = [1; 1; 1] /\ run_C14 (CRoomDef MUserEnabled JBoolean) = [0; 1; 1] /\
+  run_C14 (CRoomDef MRightSelf JNumber) = [1; 1; 1] /\ run_C14 (CRoomDef MAuthName JNull) = [0; 1; 1].
+Proof. exact room_def_witnesses_w. Qed.
+Print Assumptions C14_room_definition_witnesses.
+
 Example C14_nonvacuous :
   known_C14 (CQuery w_dm [w_q (Some (cp "grp")) None [RNamed None (cp "name"); RSub None (cp "pets") [RNamed None (cp "name")]]]) = [] /\
   query_valid w_dm [w_q (Some (cp "grp")) None [RNamed None (cp "name"); RSub None (cp "pets") [RNamed None (cp "name")]]] = true /\
